@@ -64,6 +64,12 @@ Definition grid_prep_opts {A} (a b : gopt A) (n : gopt Z) (d : option Z) (reps :
   rbind (grid_prep_opt b d reps) (fun b' =>
   rbind (grid_prep_opt n d reps) (fun n' => Ok (a', b', n'))))).
 
+(*  _, _, n = grid_prep_opts(None, None, n, d, m)      (poi_to_ind since /repo bc9fc68: the length of a list n is
+    validated against d; before that commit the line was  n = grid_prep_opt(n, d, int, m)  -- see poi_to_ind1_pinned) *)
+Definition prep_n (n : gopt Z) (d : nat) (reps : option nat) : result (parr Z) :=
+  rmap (fun abn : parr Z * parr Z * parr Z => snd abn)
+       (grid_prep_opts (@GNone Z) GNone n (Some (Z.of_nat d)) reps).
+
 (* use of a prepared option in array arithmetic: None raises TypeError *)
 Definition arr1 {A} (p : parr A) : result (list A) :=
   match p with P1 l => Ok l | PNone => Err TypeError | P2 _ => Err OtherError end.
@@ -175,7 +181,8 @@ Definition poi_scale (X : list (list T)) (a b : gopt T) (kd : gkind T) : result 
 (* numpy broadcasting of the row Xsc (length d) against the prepared n (length ln), followed by the boolean-mask
    assignment n[I > n-1]: equal lengths are elementwise; a length-1 n broadcasts in the product but the mask
    indexing raises IndexError; a length-1 Xsc broadcasts against a longer (or empty) n; anything else fails to
-   broadcast (ValueError). *)
+   broadcast (ValueError).  Since bc9fc68 the prepared n always has length d (prep_n), so only the first branch is
+   reachable from poi_to_ind; the others are what the pinned code ran into (poi_to_ind1_pinned). *)
 Definition bcast_row (kd : gkind T) (xs : list T) (nv : list Z) : result (list Z) :=
   let d := length xs in let ln := length nv in
   if Nat.eqb ln d then Ok (tab d (fun k => index_of kd (nth k nv 0%Z) (nth k xs 0)))
@@ -184,6 +191,17 @@ Definition bcast_row (kd : gkind T) (xs : list T) (nv : list Z) : result (list Z
   else Err ValueError.
 
 Definition poi_to_ind1 (X : list T) (a b : gopt T) (n : gopt Z) (kd : gkind T) : result (list Z) :=
+  rbind (poi_scale1 X a b kd) (fun Xsc =>
+  let d := length Xsc in
+  rbind (prep_n n d None) (fun n' =>
+  match kd with
+  | KUni | KCheb => rbind (arr1 n') (fun nv => bcast_row kd Xsc nv)
+  | _ => Err ValueError
+  end)).
+
+(* the code as pinned (before bc9fc68):  n = grid_prep_opt(n, d, int, m)  -- no length validation.  Kept only as the
+   subject of the machine-checked finding (Proofs/GridPoiOptP.v, poi_to_ind1_pinned_refuted). *)
+Definition poi_to_ind1_pinned (X : list T) (a b : gopt T) (n : gopt Z) (kd : gkind T) : result (list Z) :=
   rbind (poi_scale1 X a b kd) (fun Xsc =>
   let d := length Xsc in
   rbind (grid_prep_opt n (Some (Z.of_nat d)) None) (fun n' =>
@@ -196,7 +214,7 @@ Definition poi_to_ind (X : list (list T)) (a b : gopt T) (n : gopt Z) (kd : gkin
   rbind (poi_scale X a b kd) (fun Xsc =>
   let d := length (hd [] Xsc) in
   let m := length Xsc in
-  rbind (grid_prep_opt n (Some (Z.of_nat d)) (Some m)) (fun n' =>
+  rbind (prep_n n d (Some m)) (fun n' =>
   match kd with
   | KUni | KCheb => rbind (arr2 n') (fun nv =>
         sequence (tab m (fun r => bcast_row kd (nth r Xsc []) (nth r nv []))))
